@@ -46,6 +46,18 @@ func TestOwnersRecheckTokensRapid(t *testing.T) {
 				d.AddIngester("aaa", "aaa:1", "z", []uint32{40, 41}, ring.ACTIVE, time.Now(), false, time.Time{}, nil)
 				return d, true, nil
 			})
+			// a first life of the same instance may have died while observing and left its entry behind
+			// (same tokens the register delegate hands out again): the second life observes them all the same
+			leftoverEntry := basic && rapid.Bool().Draw(rt, "entryLeftByAFirstLife")
+			if leftoverEntry {
+				_ = store.CAS(ctx, lcx.RingKey, func(in interface{}) (interface{}, bool, error) {
+					d := ring.GetOrCreateRingDesc(in)
+					g := &lcx.SmallGen{Seed: seed, Space: 32}
+					toks := g.GenerateTokens(n, d.GetTokens())
+					d.AddIngester("zzz", "zzz:1", "z", toks, ring.ACTIVE, time.Now().Add(-time.Minute), false, time.Time{}, nil)
+					return d, true, nil
+				})
+			}
 			cfg := lcx.Cfg{ID: "zzz", Basic: basic, NumTokens: n, JoinAfter: 0, Observe: observe, HBPeriod: hb, GenSeed: seed, GenSpace: 32, RegState: ring.ACTIVE}
 			l, err := lcx.New(cfg, store)
 			if err != nil {
@@ -118,6 +130,10 @@ func TestOwnersRecheckTokensRapid(t *testing.T) {
 			me := d.Ingesters["zzz"]
 			if me.State != ring.ACTIVE || l.State() != ring.ACTIVE {
 				failure = fmt.Sprintf("after its tokens were taken during the observe period the instance is %v (ring) / %v (local), not ACTIVE", me.State, l.State())
+				return
+			}
+			if basic && !observedUntil.IsZero() && observedUntil.Before(t0.Add(observe-100*time.Millisecond)) {
+				failure = fmt.Sprintf("the basic lifecycler (entry left by a first life: %v) ran after %v, its tokens observe period is %v", leftoverEntry, observedUntil.Sub(t0), observe)
 				return
 			}
 			// replacement tokens are observed too: after a loss the owner keeps observing for a whole period
